@@ -119,6 +119,69 @@ def peer_frames(rng, sids):
     return []
 
 
+def lit_idx(idx, value):  # literal without indexing, indexed name
+    assert idx < 15
+    return bytes([idx, len(value)]) + value
+
+
+def request_block(rng):
+    """header block of a (possibly malformed) request"""
+    k = rng.choice(["ok", "ok", "ok", "ok_port", "ok_path", "no_method", "no_scheme", "no_path", "no_auth", "connect", "connect_scheme",
+                    "connect_path", "status", "protocol", "cl", "options_star", "head", "upper", "te", "conn", "empty_path", "https",
+                    "pseudo_after", "dup_pseudo", "big", "cookie"])
+    m = bytes([rng.choice([0x82, 0x83])])
+    sch, pth, auth = bytes([0x86]), bytes([0x84]), bytes([0x41, 0x01]) + b"a"
+    if k == "ok": return m + sch + pth + auth
+    if k == "ok_port": return m + sch + pth + bytes([0x41, 0x04]) + b"a:80"
+    if k == "ok_path": return m + sch + lit_idx(4, b"/x/y.z") + auth
+    if k == "no_method": return sch + pth + auth
+    if k == "no_scheme": return m + pth + auth
+    if k == "no_path": return m + sch + auth
+    if k == "no_auth": return m + sch + pth
+    if k == "connect": return lit_idx(2, b"CONNECT") + auth
+    if k == "connect_scheme": return lit_idx(2, b"CONNECT") + sch + auth
+    if k == "connect_path": return lit_idx(2, b"CONNECT") + pth + auth
+    if k == "status": return m + sch + pth + auth + bytes([0x88])
+    if k == "protocol": return rng.choice([m, lit_idx(2, b"CONNECT")]) + sch + pth + auth + lit(b":protocol", b"websocket")
+    if k == "cl": return m + sch + pth + auth + lit(b"content-length", rng.choice([b"0", b"5", b"1000", b"x"]))
+    if k == "options_star": return lit_idx(2, b"OPTIONS") + sch + lit_idx(4, b"*") + auth
+    if k == "head": return lit_idx(2, b"HEAD") + sch + pth + auth
+    if k == "upper": return m + sch + pth + auth + lit(b"X-Up", b"1")
+    if k == "te": return m + sch + pth + auth + lit(b"te", rng.choice([b"trailers", b"gzip"]))
+    if k == "conn": return m + sch + pth + auth + lit(b"connection", b"close")
+    if k == "empty_path": return m + sch + lit_idx(4, b"") + auth
+    if k == "https": return m + bytes([0x87]) + pth + auth
+    if k == "pseudo_after": return m + sch + lit(b"x-a", b"1") + pth + auth
+    if k == "dup_pseudo": return m + m + sch + pth + auth
+    if k == "big": return m + sch + pth + auth + lit(b"x-big", b"v" * 200) * rng.choice([1, 50])
+    if k == "cookie": return m + sch + pth + auth + lit(b"cookie", b"a=b") + lit(b"cookie", b"c=d")
+    return m + sch + pth + auth
+
+
+def peer_frames_server(rng, sids, next_sid):
+    """(frames, new next_sid)"""
+    r = rng.random()
+    if r < 0.45:
+        sid = rng.choice([next_sid] * 12 + [next_sid + 4, max(1, next_sid - 2), 2, 0])
+        eos = rng.random() < 0.3
+        fl = 4 | (1 if eos else 0) | (0x20 if rng.random() < 0.1 else 0)
+        blk = request_block(rng)
+        if fl & 0x20:
+            blk = (rng.choice([0, 1, sid]) & 0x7fffffff).to_bytes(4, "big") + b"\x10" + blk
+        n = rng.choice([1, 1, 1, 3, 8])
+        out = []
+        for i in range(n):
+            out.append(wire(1, fl, sid + 2 * i, blk))
+        if sid >= next_sid and sid % 2 == 1:
+            next_sid = sid + 2 * n
+        return out, next_sid
+    return peer_frames(rng, sids), next_sid
+
+
+SERVER_USER_KINDS = ["accept", "accept", "accept", "respond", "respond", "inform", "push", "graceful", "abrupt", "pollreset", "data", "trailers",
+                     "reserve", "cap", "pollcap", "reset", "drop", "read", "release", "keepfc", "target", "iws", "rtrailers", "eos",
+                     "fcinfo", "poll", "clientop", "takeping", "ping", "pollpong"]
+
 USER_KINDS = ["pollreset", "info", "rtrailers", "eos", "fcinfo", "keepfc", "dropfc", "release", "clone_sr", "drop_sr",
               "ready", "target", "iws", "poll", "resp", "read", "cap", "pollcap", "reset", "drop", "data", "trailers", "reserve", "req"]
 IO_KINDS = ["eof", "rderr", "wrerr", "budget", "takeping", "ping", "pollpong", "dropconn"]
@@ -128,9 +191,20 @@ def mutate(ops, rng, rate, kinds):
     out = []
     nreq = 0
     sids = []
+    server = False
+    next_sid = 1
     for line in ops:
         ws = line.split()
+        if ws[0] == "cn_peer" and server and len(ws[1]) >= 18 and ws[1][6:8] == "01":
+            sid = int(ws[1][10:18], 16) & 0x7fffffff
+            if sid >= next_sid:
+                next_sid = sid + 2
+            sids.append(sid)
+        if ws[0] == "cn_accept":
+            nreq += 1
         if ws[0] == "cn_new":
+            server = len(ws) > 1 and ws[1] == "server"
+            next_sid = 1
             nreq = 0
             sids = []
             if "cfg" in kinds and rng.random() < 0.5:
@@ -140,6 +214,11 @@ def mutate(ops, rng, rate, kinds):
                                   ("push", [0, 1]), ("reset_max", [0, 1, 2]), ("sendbuf", [0, 1, 5000])]:
                     if rng.random() < 0.2 and (opt + "=") not in line:
                         extra.append(f"{opt}={rng.choice(vals)}")
+                if server and rng.random() < 0.3:
+                    ps = wire(4, 0, 0, rng.choice([b"\0\x04\0\0\0\x64", b"\0\x03\0\0\0\x01", b"\0\x02\0\0\0\0", b"\0\x04\0\x01\0\0\0\x05\0\0\x50\0"]))
+                    extra.append("peer_settings=" + ps.hex())
+                if server and rng.random() < 0.1:
+                    extra.append("ecp=1")
                 line = line.rstrip() + " " + " ".join(extra)
             out.append(line)
             continue
@@ -152,7 +231,44 @@ def mutate(ops, rng, rate, kinds):
         while rng.random() < rate:
             kind = rng.choice([k for k in kinds if k != "cfg"])
             k = rng.randrange(nreq + (1 if rng.random() < 0.02 else 0)) if nreq else 0
-            if kind == "peer":
+            if kind == "peer" and server:
+                fs, next_sid = peer_frames_server(rng, sids[-4:] if sids else [], next_sid)
+                for f in fs:
+                    out.append("cn_peer " + f.hex())
+                if rng.random() < 0.5:
+                    out.append(rng.choice(["cn_poll", "cn_accept"]))
+            elif kind == "user" and server:
+                u = rng.choice(SERVER_USER_KINDS)
+                if u == "accept":
+                    out.append("cn_accept")
+                    nreq += 1
+                elif u == "respond": out.append(f"cn_respond {k} {rng.choice([200, 200, 204, 304, 404, 500, 100, 103, 99, 1000])} {rng.choice([0, 0, 1])}")
+                elif u == "inform": out.append(f"cn_inform {k} {rng.choice([100, 103, 103, 199, 200, 404])}")
+                elif u == "push": out.append(f"cn_push {k} /pushed{rng.randrange(3)}")
+                elif u == "graceful": out.append("cn_graceful")
+                elif u == "abrupt": out.append(f"cn_abrupt {rng.choice([0, 2, 11])}")
+                elif u == "pollreset": out.append(f"cn_pollreset {k}")
+                elif u == "data": out.append(f"cn_data {k} {rng.choice([0, 1, 1000, 20000, 100000])} {rng.choice([0, 0, 1])}")
+                elif u == "trailers": out.append(f"cn_trailers {k}")
+                elif u == "reserve": out.append(f"cn_reserve {k} {rng.choice([0, 5, 100000])}")
+                elif u == "cap": out.append(f"cn_cap {k}")
+                elif u == "pollcap": out.append(f"cn_pollcap {k}")
+                elif u == "reset": out.append(f"cn_reset {k} {rng.choice([0, 8, 2])}")
+                elif u == "drop": out.append(f"cn_drop {k} {rng.choice(['send', 'responder', 'body', 'fc', 'all'])}")
+                elif u == "read": out.append(f"cn_read {k}")
+                elif u == "release": out.append(f"cn_release {k} {rng.choice([0, 1, 5, 100, 1000, 16384, 70000])}")
+                elif u == "keepfc": out.append(f"cn_keepfc {k}")
+                elif u == "target": out.append(f"cn_target {rng.choice([0, 1000, 65535, 100000, 1 << 20, 0x7fffffff])}")
+                elif u == "iws": out.append(f"cn_iws {rng.choice([0, 10, 1000, 65535, 100000, 0x7fffffff])}")
+                elif u == "rtrailers": out.append(f"cn_rtrailers {k}")
+                elif u == "eos": out.append(f"cn_eos {k}")
+                elif u == "fcinfo": out.append(f"cn_fcinfo {k}")
+                elif u == "poll": out.append("cn_poll")
+                elif u == "clientop": out.append(rng.choice(["cn_req 0 GET /x -", "cn_ready", "cn_clone_sr", "cn_drop_sr main", f"cn_resp {k}", f"cn_info {k}"]))
+                elif u == "takeping": out.append("cn_takeping")
+                elif u == "ping": out.append("cn_ping")
+                elif u == "pollpong": out.append("cn_pollpong")
+            elif kind == "peer":
                 for f in peer_frames(rng, sids[-4:] if sids else []):
                     out.append("cn_peer " + f.hex())
                 if rng.random() < 0.5:
@@ -203,6 +319,46 @@ def mutate(ops, rng, rate, kinds):
     return out
 
 
+def run_real(ops):
+    """answers of the real code; when the harness process dies (a panic inside a destructor while
+    unwinding aborts it) the histories are run one by one and a dying history is cut at the longest
+    prefix that survives (the ops behind it are dropped from `ops` in place)"""
+    text = "\n".join(ops) + "\n"
+    r = subprocess.run([H2V, "run"], input=text, capture_output=True, text=True)
+    if r.returncode == 0:
+        return r.stdout.splitlines()
+    hs, cur = [], []
+    for o in ops:
+        if o.startswith("cn_new") and cur:
+            hs.append(cur)
+            cur = []
+        cur.append(o)
+    hs.append(cur)
+    out, kept = [], []
+    for h in hs:
+        rr = subprocess.run([H2V, "run"], input="\n".join(h) + "\n", capture_output=True, text=True)
+        if rr.returncode != 0:
+            lo, hi = 0, len(h)        # invariant: prefix lo survives, prefix hi dies
+            while hi - lo > 1:
+                mid = (lo + hi) // 2
+                if subprocess.run([H2V, "run"], input="\n".join(h[:mid]) + "\n", capture_output=True, text=True).returncode == 0:
+                    lo = mid
+                else:
+                    hi = mid
+            print(f"NOTE: the real harness process died (abort) at op {hi} of a history starting with: {h[0]!r}; last op: {h[hi - 1][:80]!r}")
+            h = h[:lo]
+            rr = subprocess.run([H2V, "run"], input="\n".join(h) + "\n", capture_output=True, text=True)
+        kept.extend(h)
+        out.extend(rr.stdout.splitlines())
+    ops[:] = kept
+    global FALLBACK
+    FALLBACK = True
+    return out
+
+
+FALLBACK = False
+
+
 def main():
     a = sys.argv[1:]
     profile, seed, cases = a[0], a[1], a[2]
@@ -215,7 +371,11 @@ def main():
     rng = random.Random(int(seed) * 7919 + 13)
     ops = mutate(ops, rng, rate, kinds)
     text = "\n".join(ops) + "\n"
-    impl = subprocess.run([H2V, "run"], input=text, capture_output=True, text=True, check=True).stdout.splitlines()
+    if keep:
+        os.makedirs(keep, exist_ok=True)
+        open(os.path.join(keep, "ops.txt"), "w").write(text)
+    impl = run_real(ops)
+    text = "\n".join(ops) + "\n"
     mod = subprocess.run([MODEL], input=text, capture_output=True, text=True)
     model = mod.stdout.splitlines()
     if keep:
@@ -251,7 +411,11 @@ def main():
             if m == "panic":
                 skipping = True
         else:
-            divs = conndiff.compare_line(impl[i], model[i], stats)
+            mline = model[i]
+            if FALLBACK and o.startswith("cn_new"):
+                # histories were run in separate processes: no previous connection whose drop wakes anything
+                mline = " ".join("wk=?" if x.startswith("wk=") else x for x in mline.split(" "))
+            divs = conndiff.compare_line(impl[i], mline, stats)
         if divs:
             ndiv += 1
             skipping = True
